@@ -14,16 +14,28 @@ def ofCps (l : List Nat) : String := String.ofList (l.map Char.ofNat)
 
 /-! ### run_parallel -/
 
-/-- order_key enum used by the harness: order keys are integers derived from the integer task key. -/
-def okey (name : String) (k : Int) : Int :=
-  match name with
-  | "neg" => -k
-  | "mod2" => k % 2
-  | "const" => 0
-  | "div2" => k / 2
-  | _ => k
+/-- order_key enum used by the harness.  An order key is an int, a `str`, or a tuple `(int, str)`;
+all three are represented as an integer list compared lexicographically (a `str` is its code points,
+a tuple `(i, s)` is `i :: code points of s`), which is CPython's comparison for these shapes. -/
+def strKey (k : Int) : List Int := (toString k).toList.map (fun c => (c.toNat : Int))
 
-def kleOf (name : String) (a b : Int) : Bool := decide (okey name a ≤ okey name b)
+def okey (name : String) (k : Int) : List Int :=
+  match name with
+  | "neg" => [-k]
+  | "mod2" => [k % 2]
+  | "const" => [0]
+  | "div2" => [k / 2]
+  | "str" => strKey k                       -- str(k): "10" < "2"
+  | "tup" => (k % 3) :: strKey k            -- (k % 3, str(k))
+  | "postup" => k :: strKey k               -- (k, str(k)): positional first
+  | _ => [k]
+
+def lexLeI : List Int → List Int → Bool
+  | [], _ => true
+  | _ :: _, [] => false
+  | a :: as, b :: bs => if a < b then true else if b < a then false else lexLeI as bs
+
+def kleOf (name : String) (a b : Int) : Bool := lexLeI (okey name a) (okey name b)
 
 abbrev Err := String × String
 
